@@ -266,10 +266,27 @@ func execDial(toks []string) string {
 		}
 		hmu.Unlock()
 	})
+	cli := newClient(machine, R, false)
+	// earlier connections of the same client and state machine, each from another local address,
+	// each completing its handshake: they must leave nothing behind that shows in this one
+	if prevS, ok := kvGet(toks, "prev"); ok {
+		prev, _ := strconv.Atoi(prevS)
+		for k := 0; k < prev; k++ {
+			pc := newMemConn()
+			pc.local = memAddr{"tcp", fmt.Sprintf("10.7.%d.%d:3868", k, 1+k)}
+			pps := &peerScript{beh: []string{"S"}}
+			pc.writeHook = pps.hook
+			if c, err := cli.NewConn(pc, "mem"); err == nil && c != nil && k%2 == 0 {
+				c.Close()
+			}
+		}
+	}
 	mc := newMemConn()
+	if la, ok := kvGet(toks, "la"); ok && la != "" {
+		mc.local = memAddr{"tcp", la + ":3868"}
+	}
 	ps := &peerScript{beh: splitDots(behS), wf: wf}
 	mc.writeHook = ps.hook
-	cli := newClient(machine, R, false)
 	type res struct {
 		c   diam.Conn
 		err error
@@ -511,7 +528,11 @@ func genSMClient(r *RNG, n int, op string, emit func(string)) {
 			if r.Chance(10) {
 				wf = 1 + r.Intn(R+1)
 			}
-			emit(fmt.Sprintf("smclient dial r=%d cfg=%d beh=%s post=%s wf=%d", R, r.Intn(4), strings.Join(beh, "."), p, wf))
+			line := fmt.Sprintf("smclient dial r=%d cfg=%d beh=%s post=%s wf=%d", R, r.Intn(4), strings.Join(beh, "."), p, wf)
+			if r.Chance(35) { // not the first connection of this client, and not from the usual local address
+				line += fmt.Sprintf(" la=%d.%d.%d.%d prev=%d", 1+r.Intn(220), r.Intn(256), r.Intn(256), 1+r.Intn(250), r.Intn(3))
+			}
+			emit(line)
 		}
 	case "wd":
 		for i := 0; i < n; i++ {
